@@ -68,26 +68,7 @@ def substitution_loops(run, F, E, label):
                 # guard rounds per iteration: call sites in the loop body that reach a guard dispatcher
                 c = cfgmod.cfg_of(fn)
 
-                def is_guard_round(n):
-                    if n.kind != 'call':
-                        return False
-                    names = set()
-                    if n.e.get('pm'):
-                        for r in E.resolve_pm_all(fn, n.e):
-                            names.add(r.get('m'))
-                    elif n.e.get('fn') is not None and F.fn(n.e['fn']) is not None:
-                        names.add(F.fn(n.e['fn']).m)
-                    if names & {'cancelledByGuards', 'cancelledByEntryGuards'}:
-                        return True
-                    # a helper that consults the guards on the loop's behalf
-                    g = F.fn(n.e['fn']) if n.e.get('fn') is not None else None
-                    if g is not None and g.tkey in ('ffsm2::detail::R_', 'ffsm2::detail::RV_', 'ffsm2::detail::RP_'):
-                        return any(h.m in ('cancelledByGuards', 'cancelledByEntryGuards') for h in E.calls_star(g).values())
-                    return False
-                try:
-                    gcalls = c.events(pred=is_guard_round)
-                except AnalysisBroken:
-                    gcalls = []
+                gcalls = anchors.guard_round_sites(F, E, fn, c)
                 inside = [n for n in gcalls if c.in_loop(n)]
                 nested = [x for x in ir.walk_stmts(st.get('body')) if x.get('s') in ('for', 'while', 'do', 'rfor')]
                 run.ob('C04.a', 'the substitution loop of R_::%s consults guards at one site per iteration (%d) and has no nested loop [%s]' % (root_name, len(inside), label),
